@@ -381,6 +381,8 @@ public:
     virtual void setCredentials(const QXmpp::Private::Credentials &) = 0;
     virtual QXmpp::Private::SaslMechanism mechanism() const = 0;
     virtual std::optional<QByteArray> respond(const QByteArray &challenge) = 0;
+    /// False while a mechanism with mutual authentication still waits for the server's proof.
+    virtual bool serverVerified() const { return true; }
 
     static bool isMechanismAvailable(QXmpp::Private::SaslMechanism, const QXmpp::Private::Credentials &);
     static std::unique_ptr<QXmppSaslClient> create(const QString &mechanism, QObject *parent = nullptr);
@@ -522,9 +524,11 @@ public:
     void setCredentials(const QXmpp::Private::Credentials &) override;
     QXmpp::Private::SaslMechanism mechanism() const override { return { m_mechanism }; }
     std::optional<QByteArray> respond(const QByteArray &challenge) override;
+    bool serverVerified() const override { return m_serverVerified; }
 
 private:
     QXmpp::Private::SaslScramMechanism m_mechanism;
+    bool m_serverVerified = false;
     int m_step;
     QString m_password;
     uint32_t m_dklen;
